@@ -1083,12 +1083,19 @@ BOUNDED = ["assumed-contract-validation#fixtures-identical-across-fresh-processe
 
 
 def contracts(reg):
-    """The one function on which the frame of to_json() rests -- `_bytesio_to_base64` -- is verified deductively (real body, SMT):
-    for every payload and every cursor position it returns the base64 text of the WHOLE payload and leaves the cursor where it
-    was.  Contract, value model (`PV` payload + ghost cursor) and executor are those of the C05 pack (contracts/C05.py), the
-    obligations are C06's own (`C06/serialization.py::_bytesio_to_base64/returns`, `/ensures#stream-position-restored`)."""
-    from contracts import C05, C06_xlsx
-    return [c for c in C05.contracts(reg) if c.target.endswith("::_bytesio_to_base64") or c.assumed] + C06_xlsx.contracts(reg)
+    """Functions verified deductively (real body, SMT):
+    * `serialization._bytesio_to_base64` -- for every payload and every cursor position it returns the base64 text of the WHOLE payload
+      and leaves the cursor where it was.  Contract, value model (`PV` payload + ghost cursor) and executor are those of the C05 pack
+      (contracts/C05.py), the obligations are C06's own (`C06/serialization.py::_bytesio_to_base64/returns`, `/ensures#stream-position-restored`).
+    * `xlsx_extractor._core_dates_present` (contracts/C06_xlsx.py).
+    * round 7 (contracts/C06_zip.py, stream model + executor of pack C11): `zip_bomb.validate_zip_bytesio` (cursor restored on normal AND
+      exceptional exits), `archive_extractor._detect_archive_type_optimized` (header read at offset 0, cursor left at 0) and six readers of
+      the caller's buffer (every read happens with the cursor at 0, on normal and exceptional paths)."""
+    from contracts import C05, C06_xlsx, C06_zip
+    # round 7: C05's assumed contract on `read_file` is no longer carried along -- no obligation of C06 goes through it
+    # (`_bytesio_to_base64` calls nothing of the package); `validate_zip_bytesio` joins the deductively verified functions.
+    out = [c for c in C05.contracts(reg) if c.target.endswith("::_bytesio_to_base64")]
+    return out + C06_xlsx.contracts(reg) + C06_zip.contracts(reg)
 
 
 def _executor():
@@ -1110,7 +1117,13 @@ def _executor():
     return C06Executor
 
 
-EXECUTOR = _executor()
+def _dispatch():
+    from contracts import C06_zip
+    return C06_zip.executor_for(_executor())      # zip_bomb.py runs on pack C11's executor (round 7), everything else on C06Executor
+
+
+EXECUTOR = _dispatch()
+from contracts.C06_zip import EXECUTOR_KW  # noqa: E402,F401 -- which contracts run on pack C11's executor
 
 
 def post_report(c, rep):
@@ -1124,10 +1137,17 @@ def post_report(c, rep):
 
 
 TRUSTED = ["third-party parsers are deterministic functions of their input bytes", "PY-HASHSEED: dict iteration = insertion order; set iteration order arbitrary per process"]
-ASSUMED_MODELS = []
+from contracts.C06_zip import ASSUMED_HERE as _ZIP_ASSUMED  # noqa: E402
+ASSUMED_MODELS = list(_ZIP_ASSUMED)
 ASSUMPTIONS = ["fresh-process / hash-seed equality follows from the obligation families only under the trusted-base assumptions; as an executed fact it is only validated on the bounded corpus",
                "aliasing is tracked by names rooted at `self` (constructor calls and copies are fresh)", "effect/qualifier obligations are decided by AST analysis (back end 'dataflow'), not SMT "
-               "(exception: serialization._bytesio_to_base64 is verified deductively with the C05 value model)",
+               "(exceptions, verified deductively on the real bodies: serialization._bytesio_to_base64 with the C05 value model; xlsx_extractor._core_dates_present "
+               "with the element model; round 7, with pack C11's stream model: zip_bomb.validate_zip_bytesio restores the cursor on every exit, "
+               "archive_extractor._detect_archive_type_optimized and six readers -- xlsx _read_content, read_rtf, read_mhtml, read_plain_text, "
+               "read_msg_format_mail, read_mbox_format_mail -- read the caller's buffer only with the cursor at 0)",
+               "round 7 stream contracts: helpers of the package called by a reader are unknown calls (any result, may raise, leave the cursor of a "
+               "buffer they are handed anywhere); the bytes read are an unknown value, so these contracts say where the buffer is read, not what is "
+               "computed from it; read_html / read_xls / read_xlsx are outside the modelled subset and stay dataflow-only",
                "order: a name is unordered when every assignment to it is set-valued; set-returning functions / set-typed parameters and attributes are summarised per module; "
                "sorted/min/max over a set is order-free only with a key whose equality implies element equality",
                "state: process-persistent state = module-level names written inside functions, `global` rebinding, functools cache decorators; closures and "
